@@ -31,8 +31,8 @@ func init() {
 				n = 60000
 			}
 			return fw.Meta{N: n, Level: "exploration", Chunk: 50, CaseTimeoutS: 120, MinNT: 300,
-				Rule:        "seeded writer programs (Write/WriteSync/Seek back to an earlier record boundary/Close) over nil, empty, random, compressible and marker-laden records with sizes around buffer, page and 4 KiB-window boundaries x 4 compression types x write buffers {8,13,64,4096,64Ki,default} x buffered/direct-I/O writer; then (a) sequential reader programs mixing ReadNext and SkipNext with read buffers {1,3,16,37,4096,64Ki}, (b) ReadNextAt at every returned offset, (c) SeekNext from every byte offset 0..size (files <= 8 KiB; record starts +-2 and window boundaries beyond). Non-trivial: >=3 surviving records incl. a nil or marker-ending one and >=1 skip; distinct by hash of program+config. Payloads embedding a complete valid record image are not generated (format cannot distinguish them)",
-				MinObs:      map[string]int64{"seeknext_offsets_checked": 100000, "skips_checked": 1000, "nil_records_skipped": 50, "seek_back_programs": 100, "readat_checked": 5000, "directio_files": 10, "records_ending_in_marker_prefix": 200},
+				Rule:        "seeded writer programs (Write/WriteSync/Seek back to an earlier record boundary/rejected Seek into the header or past the size/Close) over nil, empty, random, compressible and marker-laden records with sizes around buffer, page and 4 KiB-window boundaries x 4 compression types x write buffers {8,13,64,4096,64Ki,default} x buffered/direct-I/O writer; then (a) sequential reader programs mixing ReadNext and SkipNext with read buffers {1,3,16,37,4096,64Ki,4Mi}, (b) ReadNextAt at every returned offset, (c) SeekNext from every byte offset 0..size (files <= 8 KiB; record starts +-2 and window boundaries beyond). Non-trivial: >=3 surviving records incl. a nil or marker-ending one and >=1 skip; distinct by hash of program+config. Payloads embedding a complete valid record image are not generated (format cannot distinguish them)",
+				MinObs:      map[string]int64{"seeknext_offsets_checked": 100000, "skips_checked": 1000, "nil_records_skipped": 50, "seek_back_programs": 100, "rejected_seeks": 100, "readat_checked": 5000, "directio_files": 10, "records_ending_in_marker_prefix": 200},
 				Assumptions: []string{"direct-I/O writer is used without Seek/WriteSync (documented limitation) and with block-multiple buffers", "direct-I/O reader factory is exercised with ReadNext-only programs"},
 			}
 		},
@@ -48,9 +48,12 @@ func c04Record(c *fw.Case, bufSize int) []byte {
 	case 1:
 		return []byte{}
 	case 2: // boundary sizes
-		b := gen.Pick(r, 1, bufSize-1, bufSize, bufSize+1, 4095, 4096, 4097, 3*bufSize)
-		if b > 20000 {
+		b := gen.Pick(r, 1, bufSize-1, bufSize, bufSize+1, 4095, 4096, 4097, 3*bufSize, 32768, 65536)
+		if b > 20000 && r.Intn(4) != 0 {
 			b = 20000
+		}
+		if b > 70000 {
+			b = 70000
 		}
 		if b < 0 {
 			b = 0
@@ -134,6 +137,25 @@ func runC04(c *fw.Case) {
 			if w.Size() != off {
 				c.Violate("recordio/size-after-seek", "%s: Size()=%d after Seek(%d)\nprog: %v", cfg, w.Size(), off, prog)
 			}
+		case op == 2 && !direct && r.Intn(3) == 0: // a seek that must be rejected (into the file header / past the size) and must change nothing
+			var off uint64
+			if r.Intn(2) == 0 {
+				off = uint64(r.Intn(8))
+			} else {
+				off = w.Size() + 1 + uint64(r.Intn(50))
+			}
+			prog = append(prog, fmt.Sprintf("Seek(%d)=rejected", off))
+			c.HashAdd("badseek", off)
+			before := w.Size()
+			if err := w.Seek(off); err == nil {
+				c.Violate("recordio/seek-out-of-range-accepted", "%s: Seek(%d) outside [8,%d] was accepted\nprog: %v", cfg, off, before, prog)
+				return
+			}
+			if w.Size() != before {
+				c.Violate("recordio/rejected-seek-moved-size", "%s: Size()=%d after a rejected Seek(%d), was %d", cfg, w.Size(), off, before)
+				return
+			}
+			c.Obs("rejected_seeks", 1)
 		default:
 			rec := c04Record(c, effBuf)
 			c.HashAdd(rec, rec == nil)
@@ -240,7 +262,7 @@ func c04Sequential(c *fw.Case, path string, model []c04rec, cfg, feat string, pr
 	r := c.R
 	rounds := 2
 	for round := 0; round < rounds; round++ {
-		rbuf := gen.Pick(r, 1, 3, 16, 37, 4096, 65536)
+		rbuf := gen.Pick(r, 1, 3, 16, 37, 4096, 65536, 4*1024*1024)
 		useDirectReader := round == 1 && r.Intn(6) == 0 && filepath.Dir(path) != c.Dir
 		ropts := []recordio.FileReaderOption{recordio.ReaderPath(path), recordio.ReaderBufferSizeBytes(rbuf)}
 		if useDirectReader {
